@@ -506,7 +506,7 @@ def run(tier):
         'cli_invocations': len(cli_cases),
         'evaluations': len(trees) + len(pairs) + len(cli_names),
         'distinct_nontrivial': nontrivial,
-        'rule': 'include trees (depth <= 4, fan-out <= 3, <= 45 include entries) over a dict-backed fetchFn: URL / relative / absolute path / '
+        'rule': '+ round 7: every tree is run a second time with the SAME options object (same fetches, logs, outcome); include trees (depth <= 4, fan-out <= 3, <= 45 include entries) over a dict-backed fetchFn: URL / relative / absolute path / '
                 'no root location; system prefixes (none, relative, absolute, URL, the CLI prefix, without trailing slash); references with '
                 'sub-directories, ./, //, ../, absolute paths, absolute URLs, system includes; adjacent (merged) include lines, includes inside '
                 'function bodies, return inside included scripts, shared files; one planted failure (missing / raising fetch / broken text) in '
